@@ -13,8 +13,9 @@ func init() {
 	evaluators["C13"] = evalC13
 }
 
-// runReps executes the scenario's Call reps times on fresh worlds.
-func runReps(sc *engine.Scenario, reps int) ([]engine.Outcome, []*engine.World, error) {
+// runReps executes the scenario's Call reps times on fresh worlds. prime
+// (optional): "wrap" / "fromsig" -- see World.Prime.
+func runReps(sc *engine.Scenario, reps int, prime ...string) ([]engine.Outcome, []*engine.World, error) {
 	var outs []engine.Outcome
 	var ws []*engine.World
 	for rep := 0; rep < reps; rep++ {
@@ -22,6 +23,9 @@ func runReps(sc *engine.Scenario, reps int) ([]engine.Outcome, []*engine.World, 
 		target, args, err := w.Setup(sc)
 		if err != nil {
 			return nil, nil, err
+		}
+		if len(prime) > 0 && prime[0] != "" {
+			w.Prime(prime[0])
 		}
 		outs = append(outs, w.Call(target, args))
 		ws = append(ws, w)
@@ -76,7 +80,10 @@ func evalC02(c *engine.Case) engine.Verdict {
 	if reps <= 0 {
 		reps = 1
 	}
-	outs, ws, err := runReps(sc, reps)
+	if c.Note != "" {
+		v.Class("primed-" + c.Note)
+	}
+	outs, ws, err := runReps(sc, reps, c.Note)
 	if err != nil {
 		v.Class("setup-error")
 		return v
@@ -147,7 +154,13 @@ func genC02(g engine.G) *engine.Case {
 	default:
 		sc = engine.GenUnderivable(g, o)
 	}
-	return &engine.Case{Sc: sc, Reps: 3}
+	c := &engine.Case{Sc: sc, Reps: 3}
+	// multi-step: values were written into the functions' own value sets
+	// before the call (wrapper idiom / FromSignature); see World.Prime
+	if g.Pct(40) {
+		c.Note = engine.Pick(g, []string{"wrap", "fromsig"})
+	}
+	return c
 }
 
 func TestC02(t *testing.T) { runProp(t, "C02", genC02) }
